@@ -2,6 +2,7 @@ import IceProofs.SharedConn
 import IceProofs.SharedMonitor
 import IceProofs.WriteAbort
 import IceSpec.C13
+import IceTie.WriteAbort
 /-!
 # C13 — users of a shared mux cannot disturb each other
 
@@ -351,4 +352,114 @@ example : ∃ s, ReachableNF s ∧ s.live = true ∧ s.bbit = true ∧ s.dbit = 
       ReachableNF.init (by decide) rfl, by decide, rfl, rfl, by decide⟩
 
 end WriteAbort
+/-! ## Part 3 — tie to the code (T): the six load / test / CAS loops of `udp_mux.go` are REGENERATED on every run (one
+iteration each, `IceGen.T_WriteAbort`) and perform exactly the transitions of `IceModel.WriteAbort.step` -/
+section CodeTie
+open IceModel IceModel.WriteAbort IceTie.WriteAbort
+
+/-- the bit tests and updates of the code on the 64-bit word are the model's on (`cnt`, `dbit`, `bbit`), for every count
+below 2^62 and both bits: blocked test, deadline test, count field, setting either bit, clearing both, count ± 1 -/
+theorem C13_code_state_word (c : Nat) (d b : Bool) (h : c + 1 < 2 ^ 62) :
+    ((enc c d b &&& 9223372036854775808) != 0) = b ∧
+    ((enc c d b &&& 4611686018427387904) != 0) = d ∧
+    enc c d b &&& 4611686018427387903 = UInt64.ofNat c ∧
+    enc c d b ||| 9223372036854775808 = enc c d true ∧
+    enc c d b ||| 4611686018427387904 = enc c true b ∧
+    enc c d b &&& (~~~(13835058055282163712 : UInt64)) = enc c false false ∧
+    enc c d b + 1 = enc (c + 1) d b ∧
+    enc (c + 1) d b - 1 = enc c d b :=
+  ⟨blocked_test c d b (by omega), deadline_test c d b (by omega), count_field c d b (by omega),
+   set_blocked c d b (by omega), set_deadline c d b (by omega), clear_bits c d b (by omega), inc_word c d b h,
+   dec_word c d b h⟩
+
+/-- ONE iteration of each loop, for every word and BOTH outcomes of its CAS: the test it takes, the value it CASes in,
+what it calls and what it returns (`none` = it goes round again: a failed CAS or a yield) -/
+theorem C13_code_iterations (c : Nat) (d b casOk x : Bool) (h : c + 1 < 2 ^ 62) :
+    IceGen.udpMux_startWriteContext_iter true (enc c d b) casOk = ([], some "ctxErr") ∧
+    IceGen.udpMux_startWriteContext_iter false (enc c d b) casOk
+      = (if b then ([eYield], none)
+         else ([eCas (word c d b) (word (c + 1) d b)], if casOk then some "nil" else none)) ∧
+    IceGen.udpMux_finishWrite_iter (enc c d b) casOk
+      = (if c = 0 then ([], some "writeErr")
+         else if b ∧ c = 1 then
+           ([eCas (word c d b) (word (c - 1) d b)], if casOk then some "clearWriteDeadlineAfterAbort(writeErr)" else none)
+         else ([eCas (word c d b) (word (c - 1) d b)], if casOk then some "writeErr" else none)) ∧
+    IceGen.udpMux_abortWrite_iter (enc c d b) casOk x
+      = (if b ∨ c = 0 then ([], some "nil")
+         else if !casOk then ([eCas (word c d b) (word c d true)], none)
+         else if x then
+           ([eCas (word c d b) (word c d true), Eff.call "setWriteDeadlineNow" [], Eff.call "clearWriteAbortState" []], some "err")
+         else
+           ([eCas (word c d b) (word c d true), Eff.call "setWriteDeadlineNow" [], Eff.call "setWriteDeadlineArmed" []], some "nil")) ∧
+    IceGen.udpMux_setWriteDeadlineArmed_iter (enc c d b) casOk
+      = (if b = false ∨ d then ([], some ())
+         else ([eCas (word c d b) (word c true b)], if casOk then some () else none)) ∧
+    IceGen.udpMux_clearWriteDeadlineAfterAbort_iter (enc c d b) x
+      = (if b = false then ([], some "writeErr")
+         else if d = false then ([eYield], none)
+         else ([Eff.call "setWriteDeadlineZero" [], Eff.call "store" [Val.n (word 0 false false)]],
+               some (if x then "clearErr" else "writeErr"))) ∧
+    IceGen.udpMux_clearWriteAbortState_iter (enc c d b) casOk
+      = (if d = false ∧ b = false then ([], some ())
+         else ([eCas (word c d b) (word c false false)], if casOk then some () else none)) :=
+  ⟨(startWriteContext_tie c d b casOk h).1, (startWriteContext_tie c d b casOk h).2, finishWrite_tie c d b casOk (by omega),
+   abortWrite_tie c d b casOk x (by omega), setWriteDeadlineArmed_tie c d b casOk (by omega),
+   clearWriteDeadlineAfterAbort_tie c d b x (by omega), clearWriteAbortState_tie c d b casOk (by omega)⟩
+
+/-- the iteration whose CAS succeeds IS the model's transition — writers: from every state with a thread at W0 / W2 / W3
+the regenerated iteration on the state's word takes the model's branch, and the value it CASes (stores) is the word of the
+model's successor state -/
+theorem C13_code_writer_steps (s : State) (i : Nat) (h : s.cnt + 1 < 2 ^ 62) :
+    (s.wr[i]? = some .w0 → ∃ s', step s (.start i) = some s' ∧
+      IceGen.udpMux_startWriteContext_iter false (encOf s) true
+        = if s.bbit then ([eYield], none) else ([eCas (wordOf s) (wordOf s')], some "nil")) ∧
+    (s.wr[i]? = some .w2 → ∃ s', step s (.finish i) = some s' ∧
+      IceGen.udpMux_finishWrite_iter (encOf s) true
+        = if s.cnt = 0 then ([], some "writeErr")
+          else ([eCas (wordOf s) (wordOf s')],
+                some (if s.bbit ∧ s.cnt = 1 then "clearWriteDeadlineAfterAbort(writeErr)" else "writeErr"))) ∧
+    (∀ ep writeOk, s.wr[i]? = some (.w3 ep) → ∃ s', step s (.clearLoad i) = some s' ∧
+      IceGen.udpMux_clearWriteDeadlineAfterAbort_iter (encOf s) writeOk
+        = (if s.bbit = false then ([], some "writeErr")
+          else if s.dbit = false then ([eYield], none)
+          else ([Eff.call "setWriteDeadlineZero" [],
+                 Eff.call "store" [Val.n (wordOf { s with cnt := 0, dbit := false, bbit := false })]],
+                some (if writeOk then "clearErr" else "writeErr"))) ∧
+      (s.bbit = true → s.dbit = false → s' = s)) :=
+  ⟨fun hw => start_refines s i hw h, fun hw => finish_refines s i hw (by omega),
+   fun ep writeOk hw => clear_refines s i ep writeOk hw (by omega)⟩
+
+/-- … aborters: A0 (`abortWrite`), A2 (`setWriteDeadlineArmed`), A3 (`clearWriteAbortState`) -/
+theorem C13_code_aborter_steps (s : State) (j : Nat) (h : s.cnt < 2 ^ 62) :
+    (∀ setFails, s.ab[j]? = some .a0 → ∃ s', step s (.abortCas j) = some s' ∧
+      IceGen.udpMux_abortWrite_iter (encOf s) true setFails
+        = if s.bbit ∨ s.cnt = 0 then ([], some "nil")
+          else ([eCas (wordOf s) (wordOf s'), Eff.call "setWriteDeadlineNow" [],
+                 Eff.call (if setFails then "clearWriteAbortState" else "setWriteDeadlineArmed") []],
+                some (if setFails then "err" else "nil"))) ∧
+    (s.ab[j]? = some .a2 → ∃ s', step s (.abortArm j) = some s' ∧
+      IceGen.udpMux_setWriteDeadlineArmed_iter (encOf s) true
+        = if s.bbit = false ∨ s.dbit then ([], some ()) else ([eCas (wordOf s) (wordOf s')], some ())) ∧
+    (s.ab[j]? = some .a3 → ∃ s', step s (.abortClear j) = some s' ∧
+      IceGen.udpMux_clearWriteAbortState_iter (encOf s) true
+        = if s.dbit = false ∧ s.bbit = false then ([], some ()) else ([eCas (wordOf s) (wordOf s')], some ())) :=
+  ⟨fun sf hw => abortCas_refines s j sf hw h, fun hw => abortArm_refines s j hw h, fun hw => abortClear_refines s j hw h⟩
+
+/-- non-vacuity: two writers in flight, the abort CAS sets bit 63; the last writer of a blocked word goes on to clear; the
+constants are the model's -/
+example : IceGen.udpMux_abortWrite_iter 2 true false
+      = ([Eff.call "cas" [Val.n 2, Val.n 9223372036854775810], Eff.call "setWriteDeadlineNow" [],
+          Eff.call "setWriteDeadlineArmed" []], some "nil") ∧
+    IceGen.udpMux_finishWrite_iter 9223372036854775809 true
+      = ([Eff.call "cas" [Val.n 9223372036854775809, Val.n 9223372036854775808]], some "clearWriteDeadlineAfterAbort(writeErr)") ∧
+    IceGen.udpMux_startWriteContext_iter false 9223372036854775809 true = ([Eff.call "gosched" []], none) ∧
+    IceGen.udpMux_startWriteContext_iter false 1 false = ([Eff.call "cas" [Val.n 1, Val.n 2]], none) ∧
+    IceGen.udpMux_clearWriteAbortState_iter 13835058055282163713 true
+      = ([Eff.call "cas" [Val.n 13835058055282163713, Val.n 1]], some ()) := by decide
+example : word 0 false true = 2 ^ blockedBitPos ∧ word 0 true false = 2 ^ deadlineBitPos ∧
+    word countMask false false = countMask := by decide
+example : ∃ s, (run State.init [.spawnW, .start 0, .spawnA]) = some s ∧ s.ab[0]? = some ALoc.a0 ∧ s.cnt < 2 ^ 62 :=
+  ⟨_, rfl, by decide, by decide⟩
+
+end CodeTie
 end IceProps.C13
